@@ -2,6 +2,7 @@ import Model.Rand
 import Proofs.RandBasic
 import Proofs.RandLoop
 import Proofs.RandUniform
+import Proofs.RandUniformLoop
 import Proofs.RandSeed
 import Proofs.RandSource
 /-!
@@ -140,6 +141,44 @@ example : ((allChunks (upper256 2)).filter (fun c => decide (oneDraw 2 c = .ok (
     2 ^ (8 * upper256 2 - upper2 2) = 128 ∧
     ((allChunks (upper256 5)).filter (fun c => decide (oneDraw 5 c = .ok (some 4)))).length = 64 := by decide +kernel
 
+/-- **exact uniformity of the value returned by the whole rejection loop** (the corollary of `randrange_uniform`,
+as a theorem).  Take `k` chunks of the requested length — every one of the `(256^len)^k` sequences once
+(`allSeqs`, second and third conjunct), i.e. `k` independent uniform chunks handed out by the source.  The number
+of sequences on which `randrange` returns `t` within these `k` requests is `loopCount n k`, which is defined
+without mentioning `t`: `0` for `k = 0` and `2^(8·len − b)·(256^len)^k + rejected·loopCount n k` for `k + 1`
+(accepted at the first draw, or first chunk rejected and then the same count again).  Hence any two targets in
+`[1, n − 1]` are returned on equally many sequences (last conjunct): conditional on terminating within `k`
+draws — for every `k` — the returned value is exactly uniform on `[1, n − 1]`. -/
+theorem randrange_uniform_loop (n : Int) (hn : 1 < n) (k : Nat) :
+    (∀ t : Nat, 1 ≤ t → (t : Int) < n →
+      ((allSeqs (upper256 n) k).filter (fun cs => returnsValue (randrange (chunkEntropy cs) n [] k) t)).length = loopCount n k) ∧
+    (∀ cs : List Bytes, cs ∈ allSeqs (upper256 n) k ↔ cs.length = k ∧ ∀ c ∈ cs, c.length = upper256 n) ∧
+    (allSeqs (upper256 n) k).length = (256 ^ upper256 n) ^ k ∧
+    (loopCount n 0 = 0 ∧ ∀ j, loopCount n (j + 1) =
+      2 ^ (8 * upper256 n - upper2 n) * (256 ^ upper256 n) ^ j + rejected n * loopCount n j) ∧
+    (∀ t t' : Nat, 1 ≤ t → (t : Int) < n → 1 ≤ t' → (t' : Int) < n →
+      ((allSeqs (upper256 n) k).filter (fun cs => returnsValue (randrange (chunkEntropy cs) n [] k) t)).length =
+      ((allSeqs (upper256 n) k).filter (fun cs => returnsValue (randrange (chunkEntropy cs) n [] k) t')).length) := by
+  have key : ∀ t : Nat, 1 ≤ t → (t : Int) < n →
+      ((allSeqs (upper256 n) k).filter (fun cs => returnsValue (randrange (chunkEntropy cs) n [] k) t)).length = loopCount n k := by
+    intro t h1 h2
+    rw [← count_loop n t h1 h2 k]
+    congr 1
+    apply List.filter_congr
+    intro cs hcs
+    exact randrange_chunkEntropy cs n hn t k (by rw [((mem_allSeqs _ _ _).1 hcs).1]; exact Nat.le_refl _)
+  refine ⟨key, mem_allSeqs _ _, allSeqs_length _ _, ⟨rfl, ?_⟩, ?_⟩
+  · intro j
+    show perTarget n * _ + _ = _
+    rw [perTarget, Nat.mul_comm (upper256 n) 8]
+  · intro t t' h1 h2 h1' h2'
+    rw [key t h1 h2, key t' h1' h2']
+
+/-- non-vacuity: n = 3 (b = 1, one-byte chunks: top bit 0 ↦ 1, top bit 1 ↦ 2, nothing rejected) and n = 2 (half of the
+chunks rejected): sequences of 2 chunks -/
+example : loopCount 3 2 = 128 * 256 ∧ rejected 3 = 0 ∧ loopCount 2 2 = 128 * 256 + 128 * 128 ∧ rejected 2 = 128 ∧
+    returnsValue (randrange (chunkEntropy [[255], [3]]) 2 [] 2) 1 = true := by decide +kernel
+
 /-! ## the two users in keys.py -/
 
 /-- `SigningKey.generate` draws the secret exponent with `randrange(curve.order, entropy)`: same value,
@@ -262,6 +301,33 @@ theorem overshoot_modulo_range (H : Bytes → Bytes) (seedStr : Bytes) (order fu
     simp only [Option.some.injEq] at h
     rw [← h]
     congr 1
+
+/-- `randrange_from_seed__overshoot_modulo` **always returns** (it has no rejection loop): for every hash whose
+outputs are non-empty (SHA-256: 32 bytes) and `order ≥ 2`, the model — given the two steps of fuel one byte can
+need — returns `int(base) mod (order − 1) + 1 ∈ [1, order − 1]`, `base` being the first `2·orderlen(order)` bytes of
+the PRNG stream; no "if the PRNG delivers" -/
+theorem overshoot_modulo_returns (H : Bytes → Bytes) (hH : ∀ x, H x ≠ []) (seedStr : Bytes) (order fuel : Nat)
+    (ho : 2 ≤ order) (hf : 2 ≤ fuel) :
+    ∃ base st, prngRead H seedStr fuel (2 * Util.orderlen order) prngInit = some (base, st) ∧ base.length = 2 * Util.orderlen order ∧
+      overshootModulo H seedStr order fuel = some (.ok (beVal base % (order - 1) + 1)) ∧
+      1 ≤ beVal base % (order - 1) + 1 ∧ beVal base % (order - 1) + 1 < order := by
+  obtain ⟨base, st, hread⟩ := prngRead_some H seedStr hH fuel hf (2 * Util.orderlen order) prngInit
+  have hlen := (prngRead_inv (prngInv_init H seedStr) hread).2
+  cases hr : overshootModulo H seedStr order fuel with
+  | none =>
+    unfold overshootModulo at hr
+    rw [hread] at hr
+    simp only at hr
+    split at hr
+    · cases hr
+    · split at hr
+      · cases hr
+      · split at hr <;> cases hr
+  | some r =>
+    obtain ⟨base', st', hread', hreq, h1, h2⟩ := overshoot_modulo_range H seedStr order fuel ho r hr
+    rw [hread] at hread'
+    obtain ⟨rfl, rfl⟩ := Prod.mk.inj (Option.some.inj hread')
+    exact ⟨base, st, hread, hlen, by rw [hreq], h1, h2⟩
 
 /-- non-vacuity (toy hash = identity): both helpers return on order 251 -/
 example : overshootModulo id [65] 251 2 = some (.ok 37) ∧ trytryagain id [65] 251 8 2 9 = some (.ok 113) := by decide +kernel
